@@ -209,7 +209,7 @@ def shard(shard, nshards, rng, tier, extra):
                         cases.append((fxm, cx, fym, cy, method, rnd))
     run_cases(cases, res, 'A:all-code-pairs-small')
     cases = []
-    n = (2500 if tier == 'quick' else 60000) // nshards
+    n = (7500 if tier == 'quick' else 60000) // nshards
     while len(cases) < n:
         def f():
             nw = rng.choice([2, 4, 6, 8, 10, 12, 16, 20, 24, rng.randint(1, 26)]); return (rng.random() < 0.6, nw, rng.randint(0, nw))
@@ -224,7 +224,7 @@ def shard(shard, nshards, rng, tier, extra):
     run_cases(cases, res, 'B:random-to-53-bits')
     # (C) operands up to 62 bits whose // and % results stay within 53 bits (x/y is skipped when its own word is wider)
     cases = []
-    n = (1500 if tier == 'quick' else 40000) // nshards
+    n = (4500 if tier == 'quick' else 40000) // nshards
     tries = 0
     while len(cases) < n and tries < 50 * n:
         tries += 1
@@ -255,8 +255,8 @@ def shard(shard, nshards, rng, tier, extra):
         meth = rng.choice(['raw', 'repr'])
         cases.append((fxm, cx, fym, cy, meth, rng.choice(['trunc', 'floor', 'around'])))
     run_cases(cases, res, 'C:wide-operands-small-results')
-    run_imposed(imposed_cases(rng, (1500 if tier == 'quick' else 40000) // nshards), res)
-    run_odd(odd_cases(rng, (1500 if tier == 'quick' else 40000) // nshards), res)
+    run_imposed(imposed_cases(rng, (4500 if tier == 'quick' else 40000) // nshards), res)
+    run_odd(odd_cases(rng, (4500 if tier == 'quick' else 40000) // nshards), res)
     res.exhaustive = True
     return res
 
